@@ -8,6 +8,9 @@ import (
 	"fmt"
 	"sort"
 	"strings"
+	"sync"
+	"sync/atomic"
+	"time"
 
 	"github.com/boz/kcache"
 	"github.com/boz/kcache/nsname"
@@ -636,6 +639,15 @@ func e1WalkCase(seed uint64, wi int, steps int) Case {
 		Run: func(r *Res) {
 			rng := kit.NewRng(kit.Mix(seed, uint64(wi)+77))
 			nk := 4 + rng.Intn(3)
+			// every 8th walk is over a LARGE cache (mass deletions, few survivors, stale
+			// survivors among them); every walk draws its versions around a base that may
+			// lie beyond 32 and 53 bits (resource versions are 64-bit etcd revisions)
+			big := wi%8 == 7
+			if big {
+				nk = 1100 + rng.Intn(900)
+				steps = 14
+			}
+			vbase := []int{0, 0, 0, 1<<31 - 25, 1<<32 - 25, 1 << 53, 1 << 62}[rng.Intn(7)]
 			var keys []string
 			for i := 0; i < nk; i++ {
 				keys = append(keys, fmt.Sprintf("n%d/k%d", i%2, i))
@@ -673,10 +685,10 @@ func e1WalkCase(seed uint64, wi int, steps int) Case {
 						cv, _ := c.ver()
 						rv = fmt.Sprint(cv - rng.Intn(3))
 					} else {
-						rv = fmt.Sprint(rng.Intn(3))
+						rv = fmt.Sprint(vbase + rng.Intn(3))
 					}
 				default:
-					rv = fmt.Sprint(rng.Intn(maxv))
+					rv = fmt.Sprint(vbase + rng.Intn(maxv))
 				}
 				return mobj{p[0], p[1], rv, labs[rng.Intn(len(labs))]}
 			}
@@ -691,6 +703,34 @@ func e1WalkCase(seed uint64, wi int, steps int) Case {
 					n := rng.Intn(7)
 					dupHeavy := rng.Chance(30)
 					var l []mobj
+					if big {
+						switch y := rng.Intn(10); {
+						case y < 4 || len(cur) < nk/3:
+							// (re)populate: most keys, fresh versions
+							for _, k := range keys {
+								if rng.Chance(90) {
+									p := strings.SplitN(k, "/", 2)
+									l = append(l, mobj{p[0], p[1], fmt.Sprint(vbase + 10 + s), labs[rng.Intn(len(labs))]})
+								}
+							}
+							n = 0
+						case y < 8:
+							// mass deletion: 1-6% of the cached keys survive, a third of them listed at
+							// or below their cached version
+							for k, c := range cur {
+								if rng.Chance(4) {
+									cv, _ := c.ver()
+									p := strings.SplitN(k, "/", 2)
+									v := cv + 1 + rng.Intn(3)
+									if rng.Chance(33) {
+										v = cv - rng.Intn(3)
+									}
+									l = append(l, mobj{p[0], p[1], fmt.Sprint(v), labs[rng.Intn(len(labs))]})
+								}
+							}
+							n = rng.Intn(3)
+						}
+					}
 					for i := 0; i < n; i++ {
 						o := genObj(25)
 						if dupHeavy && len(l) > 0 && rng.Chance(50) {
@@ -732,6 +772,97 @@ func e1WalkCase(seed uint64, wi int, steps int) Case {
 		}}
 }
 
+
+// e1ReaderCase: what a reader sees WHILE a sync/refilter is being applied.  The
+// cache's filter (a harness collaborator) takes virtual time for every object,
+// so the operation is in progress for a while; a second goroutine reads all
+// along.  Every read must be the content before the operation or the content
+// after it (both are reference states); anything in between is none.
+func e1ReaderCase(seed uint64, n int) Case {
+	id := fmt.Sprintf("E1/reader-during-sync/%d/%d", seed, n)
+	return Case{ID: id, Desc: map[string]interface{}{"seed": seed, "n": n, "what": "reads while a sync/refilter is in progress (slow filter)"}, Bubble: true, Run: func(r *Res) {
+		rng := kit.NewRng(kit.Mix(seed, uint64(n)+177))
+		rounds := 12
+		for round := 0; round < rounds && !r.Failed(); round++ {
+			var slow atomic.Bool
+			accept := func(o metav1.Object) bool {
+				if slow.Load() {
+					time.Sleep(20 * time.Microsecond)
+				}
+				return o.GetLabels()["l"] != "z"
+			}
+			F := kit.TFN("slow(l!=z)", accept)
+			ctx, cancel := context.WithCancel(context.Background())
+			c := kcache.VerifNewCache(ctx, kit.NullLog{}, nil, F.Build())
+			mk := func(ver int) []metav1.Object {
+				var l []metav1.Object
+				for i := 0; i < 12; i++ {
+					if rng.Chance(70) {
+						l = append(l, kit.Pod("ns", fmt.Sprintf("k%02d", i), fmt.Sprint(ver*100+i), map[string]string{"l": []string{"x", "y", "z"}[rng.Intn(3)]}))
+					}
+				}
+				return l
+			}
+			if _, err := c.Sync(mk(1)); err != nil {
+				r.V("C01", "op-error", "%v", err)
+				cancel()
+				return
+			}
+			pre, _ := cacheSnap(c.Reader())
+			var reads []kit.Snap
+			var mu sync.Mutex
+			stop := make(chan struct{})
+			rdone := make(chan struct{})
+			go func() {
+				defer close(rdone)
+				for {
+					select {
+					case <-stop:
+						return
+					case <-time.After(15 * time.Microsecond):
+					}
+					l, err := c.List()
+					if err != nil {
+						return
+					}
+					mu.Lock()
+					reads = append(reads, kit.SnapOf(l))
+					mu.Unlock()
+				}
+			}()
+			slow.Store(true)
+			var err error
+			if round%3 == 2 {
+				_, err = c.Refilter(mk(2), kit.TFN("slow(l!=z)'", accept).Build())
+			} else {
+				_, err = c.Sync(mk(2))
+			}
+			slow.Store(false)
+			close(stop)
+			<-rdone
+			if err != nil {
+				r.V("C01", "op-error", "%v", err)
+				cancel()
+				return
+			}
+			post, _ := cacheSnap(c.Reader())
+			mu.Lock()
+			for i, s := range reads {
+				r.Add("reads-during-operation", 1)
+				if !s.Equal(pre) && !s.Equal(post) {
+					r.V("C01", "content-mismatch", "read #%d made while a %d-object sync/refilter was being applied returned %v: neither the content before it %v nor the content after it %v (a half-applied operation is no reference state)", i, len(post), s, pre, post)
+					break
+				}
+			}
+			mu.Unlock()
+			cancel()
+			<-c.Done()
+		}
+		r.Key(id)
+		r.Add("reader-during-sync-rounds", int64(rounds))
+	}}
+}
+
 func init() {
 	register("E1", func(tier string, seed uint64) []Case {
 		var cases []Case
@@ -752,6 +883,9 @@ func init() {
 		nw := tierPick(tier, 160, 12000)
 		for i := 0; i < nw; i++ {
 			cases = append(cases, e1WalkCase(seed, i, 200))
+		}
+		for i := 0; i < tierPick(tier, 16, 800); i++ {
+			cases = append(cases, e1ReaderCase(seed, i))
 		}
 		return cases
 	})
